@@ -44,6 +44,11 @@ pub enum Sc {
         /// ball pivoting around the outside: (radius, counter-clockwise?)
         #[serde(default)]
         pivot: Option<(f64, bool)>,
+        /// 0: start on the convex hull, end on repeat; 1: start on a given hull vertex (the
+        /// library looks for a free direction itself), end on repeat; 2: start on a given hull
+        /// vertex, end on another given vertex
+        #[serde(default)]
+        pivot_mode: (u8, usize, usize),
     },
 }
 
@@ -300,7 +305,7 @@ fn gen_hull(rng: &mut Rng, tier: Tier) -> Sc {
         }
         let s = rng.below(n);
         pts.rotate_left(s);
-        return Sc::Hull { label: "star-polygon".into(), pts, polygon: true, pivot: None };
+        return Sc::Hull { label: "star-polygon".into(), pts, polygon: true, pivot: None, pivot_mode: (0, 0, 0) };
     }
     let n = 4 + rng.below(max_n);
     let mut pts = Vec::new();
@@ -343,7 +348,22 @@ fn gen_hull(rng: &mut Rng, tier: Tier) -> Sc {
     } else {
         None
     };
-    Sc::Hull { label: label.into(), pts, polygon: false, pivot }
+    // start / end vertices for the other pivot modes: extreme points are hull vertices
+    let extreme = |k: usize, sign: f64| -> usize {
+        let mut best = 0;
+        for (i, p) in pts.iter().enumerate() {
+            if sign * p[k] > sign * pts[best][k] {
+                best = i;
+            }
+        }
+        best
+    };
+    let pivot_mode = match rng.below(3) {
+        0 => (0u8, 0usize, 0usize),
+        1 => (1, extreme(rng.below(2), if rng.chance(0.5) { 1.0 } else { -1.0 }), 0),
+        _ => (2, extreme(0, 1.0), extreme(0, -1.0)),
+    };
+    Sc::Hull { label: label.into(), pts, polygon: false, pivot, pivot_mode }
 }
 
 // ---------------------------------------------------------------------------------------------
@@ -516,6 +536,14 @@ fn check_kd(
     }
 }
 
+fn pivot_start_end(mode: (u8, usize, usize)) -> (hull::BallPivotStart, hull::BallPivotEnd) {
+    match mode.0 {
+        1 => (hull::BallPivotStart::StartOnIndex(mode.1), hull::BallPivotEnd::EndOnRepeat),
+        2 => (hull::BallPivotStart::StartOnIndex(mode.1), hull::BallPivotEnd::EndOnIndex(mode.2)),
+        _ => (hull::BallPivotStart::StartOnConvex, hull::BallPivotEnd::EndOnRepeat),
+    }
+}
+
 fn cross2(o: [f64; 2], a: [f64; 2], b: [f64; 2]) -> f64 {
     (a[0] - o[0]) * (b[1] - o[1]) - (a[1] - o[1]) * (b[0] - o[0])
 }
@@ -594,7 +622,7 @@ impl Property for C15 {
                 } else {
                     {
                         let nmax = *rng.pick(&[4usize, 64, 2000]);
-                        (1 + rng.below(nmax)).min(cap)
+                        (if rng.chance(0.03) { 0 } else { 1 + rng.below(nmax) }).min(cap)
                     }
                 };
                 let fault_rate = if proportional { 0.0 } else { *rng.pick(&[0.0, 0.01, 0.1, 1.0]) };
@@ -687,14 +715,15 @@ impl Property for C15 {
             } else {
                 observe_points::<3>(sim, pts, order, *radius, queries, *k, subset)
             })),
-            Sc::Hull { pts, pivot, .. } => {
+            Sc::Hull { pts, pivot, pivot_mode, .. } => {
                 let p2: Vec<Point2> = pts.iter().map(|p| Point2::new(p[0], p[1])).collect();
+                let (start, end) = pivot_start_end(*pivot_mode);
                 let pivot_obs = pivot.map(|(radius, ccw)| {
                     sim.op("hull::ball_pivot_with_centers_2d", b, || {
                         hull::ball_pivot_with_centers_2d(
                             &p2,
-                            hull::BallPivotStart::StartOnConvex,
-                            hull::BallPivotEnd::EndOnRepeat,
+                            start,
+                            end,
                             if ccw { AngleDir::Ccw } else { AngleDir::Cw },
                             radius,
                         )
@@ -1081,9 +1110,24 @@ impl Property for C15 {
                     out.push(mk(pts.clone(), order.clone(), queries.clone(), k / 2, subset.clone()));
                 }
             }
-            Sc::Hull { label, pts, polygon, pivot } => {
+            Sc::Hull { label, pts, polygon, pivot, pivot_mode } => {
+                if pivot_mode.0 != 0 {
+                    // remove single points other than the designated ones, remapping the indices
+                    for drop in (0..pts.len()).rev().take(60) {
+                        if drop == pivot_mode.1 || drop == pivot_mode.2 || pts.len() <= 4 {
+                            continue;
+                        }
+                        let p: Vec<[f64; 2]> = pts.iter().enumerate().filter(|(i, _)| *i != drop).map(|(_, q)| *q).collect();
+                        let fix = |i: usize| if i > drop { i - 1 } else { i };
+                        out.push(Sc::Hull { label: label.clone(), pts: p, polygon: *polygon, pivot: *pivot, pivot_mode: (pivot_mode.0, fix(pivot_mode.1), fix(pivot_mode.2)) });
+                    }
+                }
                 for p in chunk_removals(pts, 4).into_iter().take(48) {
-                    out.push(Sc::Hull { label: label.clone(), pts: p, polygon: *polygon, pivot: *pivot });
+                    // indices of the start / end vertices refer to positions: only keep candidates
+                    // that leave them meaningful (mode 0 has none)
+                    if pivot_mode.0 == 0 {
+                        out.push(Sc::Hull { label: label.clone(), pts: p, polygon: *polygon, pivot: *pivot, pivot_mode: *pivot_mode });
+                    }
                 }
             }
         }
@@ -1109,18 +1153,19 @@ impl Property for C15 {
             Sc::Uniform { .. } => fp.push("sample-uniform".into()),
             Sc::PoissonMesh { .. } => fp.push("sample-poisson".into()),
             Sc::Dense { .. } => fp.push("sample-dense".into()),
-            Sc::Hull { pts, pivot, .. } => {
+            Sc::Hull { pts, pivot, pivot_mode, .. } => {
                 fp.push("hull".into());
                 // near-tie: at some reported contact a third input point lies within 1e-5 r of
                 // the ball's boundary (the code discards contacts whose pivot angle is below
                 // 1e-6 rad, so what it does next at such a point is decided by rounding)
                 if let Some((radius, ccw)) = pivot {
                     let p2: Vec<Point2> = pts.iter().map(|p| Point2::new(p[0], p[1])).collect();
+                    let (start, end) = pivot_start_end(*pivot_mode);
                     let res = std::panic::catch_unwind(|| {
                         hull::ball_pivot_with_centers_2d(
                             &p2,
-                            hull::BallPivotStart::StartOnConvex,
-                            hull::BallPivotEnd::EndOnRepeat,
+                            start,
+                            end,
                             if *ccw { AngleDir::Ccw } else { AngleDir::Cw },
                             *radius,
                         )
